@@ -910,6 +910,12 @@ func commonFaultCounts(sc *Scenario, h *History, st *Stats) {
 		if len(c.AwaitTO) > 0 {
 			st.Faults["client_wait_timed_out"]++
 		}
+		if c.SrvBlocked > 0 {
+			st.Faults["reply_write_blocked_peer_not_reading"]++
+		}
+		if c.SrvBlockedTO > 0 {
+			st.Faults["blocked_write_ended_by_WriteTimeout"]++
+		}
 		if sc.Conns[i].SrvFaults.FailWriteAt > 0 {
 			st.Faults["reply_write_failed"]++
 		}
